@@ -171,28 +171,20 @@ fn split_pair_pos_format_2(graph: &mut Graph, subtable: ObjectId) -> Option<Vec<
     let mut visited = HashSet::new();
     let mut next_device_offset = 3; // start after coverage + class defs
     for (idx, class1rec) in pp2.class1_records().iter().enumerate() {
+        let class1rec = class1rec.unwrap();
         let mut accumulated_delta = class1_record_size;
         coverage_size += estimator.increment_coverage_size(idx as _);
         class_def_1_size += estimator.increment_class_def_size(idx as _);
 
+        let first_device_offset = next_device_offset;
         if has_device_tables {
-            for class2rec in class1rec.unwrap().class2_records.iter() {
-                let class2rec = class2rec.as_ref().unwrap();
-                accumulated_delta += size_of_value_record_children(
-                    &class2rec.value_record1,
-                    graph,
-                    &data.offsets,
-                    &mut next_device_offset,
-                    &mut visited,
-                );
-                accumulated_delta += size_of_value_record_children(
-                    &class2rec.value_record2,
-                    graph,
-                    &data.offsets,
-                    &mut next_device_offset,
-                    &mut visited,
-                );
-            }
+            accumulated_delta += size_of_class1_record_children(
+                &class1rec,
+                graph,
+                &data.offsets,
+                &mut next_device_offset,
+                &mut visited,
+            );
         }
 
         accumulated += accumulated_delta;
@@ -203,11 +195,24 @@ fn split_pair_pos_format_2(graph: &mut Graph, subtable: ObjectId) -> Option<Vec<
 
         if total > super::MAX_TABLE_SIZE {
             split_points.push(idx);
+            visited.clear();
+            if has_device_tables {
+                // device tables this record shares with the previous subtable
+                // were not counted above, but they are new in the next subtable
+                let mut device_offset = first_device_offset;
+                accumulated_delta = class1_record_size
+                    + size_of_class1_record_children(
+                        &class1rec,
+                        graph,
+                        &data.offsets,
+                        &mut device_offset,
+                        &mut visited,
+                    );
+            }
             // split does not include this class, so add it for the next iteration
             accumulated = BASE_SIZE + accumulated_delta;
             coverage_size = 4 + estimator.increment_coverage_size(idx as _);
             class_def_1_size = 4 + estimator.increment_class_def_size(idx as _);
-            visited.clear();
         }
     }
 
@@ -448,6 +453,35 @@ fn count_num_ranges(glyphs: &BTreeSet<GlyphId16>) -> u16 {
         last = Some(gid.to_u16());
     }
     count
+}
+
+// the size of the (not yet seen) device tables of all records of one class1 record
+fn size_of_class1_record_children(
+    class1rec: &rgpos::Class1Record,
+    graph: &Graph,
+    offsets: &[OffsetRecord],
+    next_offset_idx: &mut usize,
+    seen: &mut HashSet<ObjectId>,
+) -> usize {
+    let mut size = 0;
+    for class2rec in class1rec.class2_records.iter() {
+        let class2rec = class2rec.as_ref().unwrap();
+        size += size_of_value_record_children(
+            &class2rec.value_record1,
+            graph,
+            offsets,
+            next_offset_idx,
+            seen,
+        );
+        size += size_of_value_record_children(
+            &class2rec.value_record2,
+            graph,
+            offsets,
+            next_offset_idx,
+            seen,
+        );
+    }
+    size
 }
 
 fn size_of_value_record_children(
